@@ -141,6 +141,21 @@ class Program:
             self._src_cache[rel] = open(p).read() if os.path.exists(p) else ''
         return self._src_cache[rel]
 
+    def aliases(self, rel):
+        if not hasattr(self, '_aliases'):
+            self._aliases = {}
+        if rel not in self._aliases:
+            d = {}
+            for m in re.finditer(r'\buse\s+([\w:]+)\s+as\s+(\w+)\s*;', self.src(rel)):
+                d[m.group(2)] = m.group(1)
+            for m in re.finditer(r'\buse\s+([\w:]+)::\{([^}]*)\}\s*;', self.src(rel)):
+                for part in m.group(2).split(','):
+                    mm = re.match(r'\s*([\w:]+)\s+as\s+(\w+)\s*$', part)
+                    if mm:
+                        d[mm.group(2)] = m.group(1) + '::' + mm.group(1)
+            self._aliases[rel] = d
+        return self._aliases[rel]
+
     def _impl_info(self, rel, line, col):
         text = self.src(rel)
         lines = text.split('\n')
@@ -172,6 +187,9 @@ class Program:
             generics = parse_generic_names(rest[1:j])
             rest = rest[j + 1:].strip()
         rest = re.split(r'\bwhere\b', rest)[0].strip()
+        # resolve `use path::Item as Alias;` renames of this file
+        al = self.aliases(rel)
+        rest = re.sub(r'(?<![\w:])([A-Za-z_]\w*)(?![\w])', lambda m_: al.get(m_.group(1), m_.group(1)), rest)
         trait = None
         mm = re.match(r'(.*?) for (.*)$', rest)
         if mm:
@@ -298,6 +316,9 @@ class Program:
                             (('::' not in full) and re.search(r'(?<![\w])' + re.escape(tl) + r'(?![\w])', sig)):
                         cands.append(f)
                 elif last_seg(ii.self_ty) == tl:
+                    a2, b2 = base_type(ii.self_ty).split('::'), base_type(ty).split('::')
+                    if len(a2) >= 2 and len(b2) >= 2 and a2[-2] != b2[-2]:
+                        continue
                     cands.append(f)
             if len(cands) > 1:
                 # disambiguate generic trait instantiations (e.g. Index<RangeFrom<usize>>) by trait args / module
